@@ -1,6 +1,11 @@
 package checks
 
 import (
+	"fmt"
+	"os"
+	"os/exec"
+	"path/filepath"
+	"strings"
 	"time"
 
 	"verif/drv"
@@ -69,6 +74,53 @@ func scenarios(indexed bool) []*eng.Scenario {
 	}
 }
 
+// RacePass is run by the -race binary (bin/verif-race racepass).
+func RacePass(rounds int) int {
+	scs := append(scenarios(false), scenarios(true)...)
+	scs = append(scs, eng.WideScenario())
+	return eng.RacePass(scs, []string{drv.BBolt, drv.Badger}, rounds)
+}
+
+// runRaceBinary executes the free-running pass in the race-detector build and reports data races.
+func runRaceBinary(run *ev.Run, tier string) {
+	exe, _ := os.Executable()
+	race := filepath.Join(filepath.Dir(exe), "verif-race")
+	if _, err := os.Stat(race); err != nil {
+		run.Note("race pass skipped: bin/verif-race not built")
+		return
+	}
+	cmd := exec.Command(race, "racepass", tier)
+	cmd.Env = append(os.Environ(), "GORACE=halt_on_error=0 exitcode=66")
+	out, err := cmd.CombinedOutput()
+	text := string(out)
+	n := strings.Count(text, "WARNING: DATA RACE")
+	run.Set("race_pass", map[string]interface{}{"kind": "sampling (free-running goroutines under the Go race detector), not part of the exhaustive exploration", "data_races_reported": n, "output_tail": tail(text, 200), "exit_error": fmt.Sprint(err)})
+	if n > 0 {
+		i := strings.Index(text, "WARNING: DATA RACE")
+		rep := text[i:]
+		if len(rep) > 3000 {
+			rep = rep[:3000]
+		}
+		where := "unknown"
+		for _, l := range strings.Split(rep, "\n") {
+			if strings.Contains(l, "/repo/") || strings.Contains(l, "clover/v2") {
+				where = strings.TrimSpace(l)
+				break
+			}
+		}
+		run.Violation("data-race|"+where, "the Go race detector reported a data race in a free-running execution of the scenario bodies:\n"+rep, map[string]interface{}{"engine": "racepass", "report": rep})
+	} else if err != nil {
+		run.Note("race pass: the race binary failed without reporting a race: " + fmt.Sprint(err) + " " + tail(text, 300))
+	}
+}
+
+func tail(s string, n int) string {
+	if len(s) > n {
+		return s[len(s)-n:]
+	}
+	return s
+}
+
 func init() {
 	register("C07", "model_checking", func(run *ev.Run, tier string) string {
 		tags := own("nonlinearizable", "deadlock", "rawkeys", "count", "indexquery", "id", "panic", "leak", "final", "harness")
@@ -87,6 +139,7 @@ func init() {
 				}
 			}
 		}
+		runRaceBinary(run, tier)
 		run.Set("traces_validated_against_impl", run.Get("transitions"))
 		run.Set("distinct_nontrivial", run.Get("schedules_with_preemption"))
 		run.Assume("both stores isolate uncommitted work, so with scheduling points at operation and transaction boundaries the interleavings explored are complete for <= 3 goroutines; every-store-call points are explored with <= 2 preemptions in the thorough tier")
